@@ -6,6 +6,7 @@ import (
 	"go/types"
 	"strings"
 
+	"gengoverif/checker/internal/cfgx"
 	"gengoverif/checker/internal/core"
 )
 
@@ -187,4 +188,67 @@ func aliasRep(f *core.Func, v *types.Var) *types.Var {
 func sameAlias(f *core.Func, e ast.Expr, v *types.Var) bool {
 	x := core.VarOf(f.Info(), e)
 	return x != nil && v != nil && aliasRep(f, x) == aliasRep(f, v)
+}
+
+// copiesOfSame: a and b are single-definition copies (`a := w`, `b := w`) of one source variable w,
+// and w is not re-assigned on the way from the earlier copy to the later one (w may well be
+// re-assigned elsewhere, e.g. once per iteration of an enclosing loop): the two hold the same value.
+// This is what the parameters of two helpers inlined next to each other look like
+// (`if !t.hasName(n) { t.bind(n, p) }`).
+func copiesOfSame(f *core.Func, a, b *types.Var) bool {
+	if a == nil || b == nil {
+		return false
+	}
+	if a == b {
+		return true
+	}
+	info := f.Info()
+	body := f.Root().Body
+	src := func(v *types.Var) (*types.Var, ast.Node) {
+		d, ok := core.SingleDef(info, body, v)
+		if !ok || d.Index >= 0 {
+			return nil, nil
+		}
+		w := core.VarOf(info, d.Rhs)
+		return w, d.Stmt
+	}
+	wa, sa := src(a)
+	wb, sb := src(b)
+	// one may be the source itself
+	if wa != nil && wa == b {
+		wb, sb = b, nil
+	}
+	if wb != nil && wb == a {
+		wa, sa = a, nil
+	}
+	if wa == nil || wa != wb {
+		return false
+	}
+	g := graph(f.Root())
+	if sa == nil || sb == nil {
+		// a copy and the source itself: the source must not be re-assigned after the copy before ... (not decidable without the use point): be conservative
+		return len(core.DefsOf(info, body, wa)) <= 1
+	}
+	pa, pb := g.PointOf(sa), g.PointOf(sb)
+	if !pa.Valid() || !pb.Valid() {
+		return false
+	}
+	first, second := pa, pb
+	if !g.Dominates(pa, pb) {
+		if !g.Dominates(pb, pa) {
+			return false
+		}
+		first, second = pb, pa
+	}
+	// no definition of w between first and second (without passing first again)
+	for _, d := range g.Points(func(n ast.Node) bool { return g.Assigns(n, wa) }) {
+		_, toD := g.Reach(first, false, cfgx.Query{Target: func(q cfgx.Point) bool { return q == d }, Cut: func(q cfgx.Point) bool { return q == first }})
+		if !toD {
+			continue
+		}
+		if _, toSecond := g.Reach(d, false, cfgx.Query{Target: func(q cfgx.Point) bool { return q == second }, Cut: func(q cfgx.Point) bool { return q == first }}); toSecond {
+			return false
+		}
+	}
+	return true
 }
